@@ -237,10 +237,8 @@ def channel_scales(w, path):
         props = w.props.get(p)
         if props:
             s = parse_scales(props)
-            if s == 'unsupported':
-                return None
             if s is not None:
-                return s
+                return s          # a list of scale descriptors, or 'unsupported' (sensor scales: no reference formula here)
     return None
 
 
